@@ -50,6 +50,50 @@ def table_part(ctx):
     return failing
 
 
+def selftest(ctx):
+    """The translator checks itself: props/C20/selftest/src/idioms.c holds one static-storage object per write idiom
+    (w_*) and per read-only idiom (r_*); the same extractor + points-to closure must give w_* a writer and r_* none,
+    and nm on the -O2 object must list the function statics (symbols name.N) in a writable section."""
+    import cast, tempfile
+    d = os.path.join(core.ROOT, "props", "C20", "selftest")
+    src = os.path.join(d, "src", "idioms.c")
+    try:
+        rec = cast.reduce_tu(src, "", "", d)
+        pts, wr = gl.solve([rec])
+    except Exception as e:
+        ctx.violation("selftest:translator", "the writers analysis fails on its own idiom file: %r" % (e,), {"kind": "internal", "error": repr(e)}, False)
+        return
+    with tempfile.TemporaryDirectory() as td:
+        o = os.path.join(td, "idioms.o")
+        rc, out = core.sh(["gcc", "-O2", "-c", src, "-o", o])
+        syms = set()
+        if rc == 0:
+            for l in subprocess.run(["nm", "-S", "--defined-only", o], stdout=subprocess.PIPE).stdout.decode().splitlines():
+                q = l.split()
+                if len(q) >= 3 and q[-2] in "BbDdCc":
+                    syms.add(re.sub(r"\.\d+$", "", q[-1]))
+    n_ok = 0
+    for ob in rec["objects"]:
+        n = ob["name"]
+        if n[:2] not in ("w_", "r_"):
+            continue
+        ctx.cov["evaluations"] += 1
+        w = wr.get("G:%s@src/idioms.c" % n, [])
+        want = n.startswith("w_")
+        if bool(w) != want:
+            ctx.violation("selftest:" + n, "writers analysis self-test: object %s of props/C20/selftest/src/idioms.c %s" % (
+                n, "is written but no writer was found (an idiom the translator no longer recognises)" if want else "is never written but writers were reported: %s" % (w[:3],)),
+                {"kind": "table-row", "theorem_or_file": "tools/globals.py self-test", "row": {"name": n, "writers": [list(x) for x in w[:10]]}}, False)
+        elif want and rc == 0 and ob["func"] and n not in syms:     # function statics must be found by nm under their name.N symbol
+            ctx.violation("selftest:nm:" + n, "self-test object %s is written but nm does not list it in a writable section of the -O2 object" % n,
+                          {"kind": "table-row", "theorem_or_file": "tools/globals.py self-test (nm)", "row": {"name": n}}, False)
+        else:
+            n_ok += 1
+            ctx.cell("selftest:%s" % ("write-idiom" if want else "read-idiom"))
+    ctx.cov["selftest_idioms"] = n_ok
+    ctx.notes.append("translator self-test: %d idioms of props/C20/selftest/src/idioms.c classified as expected" % n_ok)
+
+
 def cases(ctx):
     r = ctx.rng
     thorough = ctx.tier == "thorough"
@@ -140,6 +184,7 @@ def runtime_part(ctx, failing_rows):
 
 def run(ctx):
     ctx.check_proofs()
+    selftest(ctx)
     failing = table_part(ctx)
     runtime_part(ctx, failing)
     ctx.assumptions = [
